@@ -32,7 +32,7 @@ Recv(recs, src, d) ==
          IF ~IsRegistered(recs, src) THEN [recs |-> recs, sent |-> <<Sent("reject", src, 0)>>, out |-> "ok"]
          ELSE IF d.ovf THEN [recs |-> recs, sent |-> <<>>, out |-> "raise"]
          ELSE LET rec == recs[Find(recs, src)]
-                  dst == IF d.cls = "rdac" THEN AddrOf(rec.f["address_out"]) ELSE [ip |-> src.ip, port |-> P2PPort]
+                  dst == AddrOf(rec.f["address_out"])
                   port == IF d.cls = "rdac" THEN RdacPort ELSE rec.f["address_in"].port
               IN [recs |-> recs,
                   sent |-> <<Sent("accept_" \o d.cls, dst, 0), Sent("redirect", dst, port)>>, out |-> "ok"]
@@ -55,7 +55,7 @@ RegisteredAddrs(recs) == {AddrOf(recs[i].f["address_in"]) : i \in {j \in 1..Len(
 MonRecv(mon, pre, src, d, o) ==
   LET i == Find(pre, src)
       stored == IF i = 0 THEN src ELSE AddrOf(pre[i].f["address_out"])
-      okDst == {stored, src, [ip |-> src.ip, port |-> P2PPort]}
+      okDst == {stored, src}        \* "that repeater's stored outbound address or the requester"
       mon1 == IF d.cls = "reg" /\ o.out = "ok" THEN mon \cup {src} ELSE mon
       why ==
         IF \E k \in 1..Len(o.sent) : o.sent[k].kind \in Served /\ src \notin mon THEN "ServeOnlyRegistered"
